@@ -1597,3 +1597,34 @@ func spawnedFn(cc *ssa.CallCommon) *ssa.Function {
 	}
 	return f
 }
+
+// retVal returns the value result #i of a return statement really carries: when
+// the function has deferred calls (or named results) go/ssa returns a load of
+// the result slot; the value stored into that slot last in the same block is
+// then the one returned.
+func retVal(ret *ssa.Return, i int) ssa.Value {
+	if i >= len(ret.Results) {
+		return nil
+	}
+	r := ret.Results[i]
+	u, ok := r.(*ssa.UnOp)
+	if !ok || u.Op != token.MUL {
+		return r
+	}
+	if _, isAlloc := u.X.(*ssa.Alloc); !isAlloc {
+		return r
+	}
+	var last ssa.Value
+	for _, in := range ret.Block().Instrs {
+		if in == ssa.Instruction(u) {
+			break
+		}
+		if st, ok := in.(*ssa.Store); ok && st.Addr == u.X {
+			last = st.Val
+		}
+	}
+	if last != nil {
+		return last
+	}
+	return r
+}
